@@ -52,6 +52,11 @@ pub fn gen_wt_case(seed: u64, salt: &str, idx: u64, cfg: &Cfg, st: &mut Stats) -
             // cases stay what they were)
             rec_shadows = crate::gen::twin::add_rec_shadows(&mut prog, &mut Rng::for_case(seed, "rec-shadows", idx));
         }
+        let mut header_twins = 0;
+        if idx % 7 == 3 {
+            // header names that differ by case only (own random stream)
+            header_twins = crate::gen::twin::add_header_case_twins(&mut prog, &mut Rng::for_case(seed, "header-twins", idx));
+        }
         match expected(&prog) {
             Ok(exp) => {
                 if let Expected::Doc { flags, .. } = &exp {
@@ -66,6 +71,7 @@ pub fn gen_wt_case(seed: u64, salt: &str, idx: u64, cfg: &Cfg, st: &mut Stats) -
                         continue;
                     }
                 }
+                st.add("gen_header_objects_with_names_differing_by_case", header_twins as u64);
                 st.add("gen_rec_binders_named_like_a_declaration_used_before", rec_shadows.0 as u64);
                 st.add("gen_rec_binders_named_like_a_parameter_used_before", rec_shadows.1 as u64);
                 let printed = print_program(&prog);
